@@ -7,16 +7,26 @@
 (P) every `execute_task t` of the implementation in a run without --always-execute (reset-dep's `processed t` is
     evaluated too, as information only) must have the Lean predicate `specUpToDate` false, evaluated by the driver's ghost machine from what
     the implementation was seen to execute -- never from the DB.
+
+Wave 5: the uptodate helpers of doit/tools.py (run_once, config_changed str/dict, timeout int/timedelta,
+check_timestamp_unchanged) and doit/task.py::result_dep (single task / group) are modelled in
+lean/DoitModel/Model/UtdTools.lean (answer and saver as a function of (saved values, world)); theorems in the section
+`DoitModel.C04.Helpers` of Props/C04.lean; harness/utdtoolslib.py drives the REAL helper objects through
+Task._init_uptodate / Dependency.get_status / Task.save_extra_values / save_success / remove_success with a fake
+clock, real files (os.utime(ns=)) and a real JsonDB, and diffs every answer and every saved dict with the model
+(driver mode `utdtools`); counters `utdtools:<helper>:*`.
 """
 import statuslib
+import utdtoolslib
 from props import c03
 
 META = dict(c03.META)
 META.update({
     'property': 'C04',
     'lean_props': ['DoitModel.Props.C04'],
-    'budget': {'quick': 25, 'thorough': 420},
-    'anchors': c03.META['anchors'] + ['doit/runner.py::MRunner', 'doit/runner.py::MThreadRunner'],
+    'budget': {'quick': 30, 'thorough': 420},
+    'anchors': c03.META['anchors'] + ['doit/runner.py::MRunner', 'doit/runner.py::MThreadRunner',
+                                       'doit/tools.py::timeout', 'doit/tools.py::check_timestamp_unchanged'],
     'design_ref': '§5 C04, §4 M2',
     'level_text': 'Machine-checked: for every finite history (as C03) and every prefix, a task for which none of the '
                   'not-up-to-date conditions holds relative to its last recorded successful execution gets status '
@@ -27,8 +37,28 @@ META.update({
                   '(real files, 3 backends x 2 checkers, serial and -n 2 process/thread runs); the monitor checks '
                   'every real execution without --always against the Lean specification computed from a ghost state '
                   'that never reads the DB.',
-    'rule': c03.META['rule'] + '; 15% of the random histories use -n 2 / -n 2 -P thread for some runs',
+    'rule': c03.META['rule'] + '; 15% of the random histories use -n 2 / -n 2 -P thread for some runs'
+            '; uptodate helper unit cases (utdtools:*): one helper item (run_once / config_changed over str, dict in '
+            'several insertion orders, nested, non-str-non-dict / timeout int incl. 0 and negative, timedelta with '
+            'days, milliseconds, microseconds, negative / check_timestamp_unchanged over the 6 spellings of `time` '
+            'and 7 cmp_op incl. constant functions / result_dep on a single task and on groups whose task_dep holds '
+            'non-sub-tasks and is reordered), 4-12 ops of world change (clock ticks of a quarter second up to days, '
+            'config, file atime/mtime/delete, results, group shape), status query, run (ok / failing, with world '
+            'changes during the execution); non-trivial = a success was saved and two different answers were seen',
 })
+META['level_text'] += ('  Uptodate helpers (tools.py run_once / config_changed / timeout / check_timestamp_unchanged, '
+                       'task.py result_dep): machine-checked characterisation of each answer as a function of the '
+                       'saved values and the present world (config_changed_true_iff, timeout_true_iff, '
+                       'timeout_expiry_monotone, timestamp_unchanged_iff, result_dep_true_iff, ...), never '
+                       'up-to-date without a recorded success (helper_never_yes_unrecorded, over histories '
+                       'helper_history_never_yes_without_success), up-to-date right after a success in an unchanged '
+                       'world (helper_yes_after_success, helper_rerun_skips); tied to the real helper objects by a '
+                       'unit-level differential test on every run.')
+META['assumptions'] = list(META['assumptions']) + [
+    'helper unit model: md5 is an injective function parameter (the harness applies the real hashlib.md5 to the '
+    'canonical JSON text the model tags); time.time() and file times are multiples of a quarter second (exact '
+    'floats); st_ctime is observed, not set; one helper item per task; the JSON canonical text of a dict is computed '
+    'by the harness with json.dumps(sort_keys=True)']
 META['trusted'] = list(c03.META['trusted']) + [
     'parallel runners: status is computed in the main process; the model replays tasks in selection order '
     '(histories are generated so that concurrently runnable tasks do not write each other\'s files)']
@@ -36,6 +66,8 @@ META['trusted'] = list(c03.META['trusted']) + [
 
 def run(ctx):
     quick = ctx.tier == 'quick'
+    # unit-level differential test of the uptodate helpers (tools.py, result_dep) against Model/UtdTools.lean
+    utdtoolslib.run(ctx, 'C04', (600 if quick else 6000) * ctx.boost)
     n_random = (1000 if quick else 8000) * ctx.boost
     statuslib.run_property(ctx, 'C04', n_random, exh_len=(3 if quick and ctx.boost == 1 else 4 if quick else 5),
                            macro_len=(3 if quick and ctx.boost == 1 else 4),
@@ -50,4 +82,6 @@ def search(ctx):
 
 
 def replay(ctx, data):
+    if ((data.get('witness') or {}).get('case') or {}).get('kind') == 'utdtools':
+        return utdtoolslib.replay(ctx, data)
     return statuslib.replay_case(ctx, data, 'C04')
